@@ -485,6 +485,10 @@ func main() {
 		}
 		wg.Wait()
 		concurrentBad = int(bad.Load())
+		if mode == "concurrent" { // only the concurrent first use (run from a race-instrumented build, several fresh processes)
+			json.NewEncoder(os.Stdout).Encode(map[string]any{"concurrent_bad": concurrentBad})
+			return
+		}
 	}
 	type mismatch struct {
 		App    app    `json:"app"`
